@@ -103,6 +103,14 @@ def worker(kp, job):
     for f in filters:
         fa = None if f is None else [TC[c] for c in f]
         key = rng.choice([None, 'COM', 'O', 'ONB', 'SEGMENT', '!SEGMENT', '!COM', 'S', '!'])
+        if idx % 3 == 0 and f:
+            # an export of the document with this very category set as its EXCLUSION (and some unrelated inclusion) comes
+            # first: the queries filtered by the set answer as without it (selection tables are not the exporter's to edit)
+            try:
+                kp.dumps(doc, include={TC[c] for c in rng.sample(CATS, rng.randint(1, 3))}, exclude={TC[c] for c in f})
+                kp.dumps(doc, include={TC[c] for c in f}, exclude={TC[c] for c in rng.sample(CATS, rng.randint(1, 3))})
+            except Exception:
+                pass
         try:
             lst = doc.get_all_tokens(filter_by_categories=fa)
             uni = doc.get_unique_tokens(filter_by_categories=fa)
